@@ -80,4 +80,97 @@ def cutCmdThr (lflag : Option String) (input : Except String (List InTree)) : Cl
     | .error path => ⟨1, "", "open " ++ path ++ ": no such file or directory"⟩
     | .ok trees => cutEachThr thr trees 0 ""
 
+/-! ### round 7b: hexadecimal floats and digit separators (strconv `readFloat`, `underscoreOK`) -/
+
+def dropSign : List Char → List Char
+  | '-' :: r => r
+  | '+' :: r => r
+  | cs => cs
+
+def hasHexPrefix (cs : List Char) : Bool :=
+  match dropSign cs with
+  | '0' :: x :: _ => x == 'x' || x == 'X'
+  | _ => false
+
+def hexDigit? (c : Char) : Option Nat :=
+  if c.isDigit then some (c.toNat - 48)
+  else if 'a' ≤ c ∧ c ≤ 'f' then some (c.toNat - 87)
+  else if 'A' ≤ c ∧ c ≤ 'F' then some (c.toNat - 55)
+  else none
+
+/-- `underscoreOK` of strconv/atoi.go: an underscore must separate digits (the base prefix counts as a digit);
+    state `0` = digit, `1` = underscore, `2` = other, `3` = start -/
+def underscoreLoop (hex : Bool) : List Char → Nat → Bool
+  | [], st => st != 1
+  | c :: r, st =>
+    if c.isDigit || (hex && (hexDigit? c).isSome) then underscoreLoop hex r 0
+    else if c == '_' then (if st != 0 then false else underscoreLoop hex r 1)
+    else if st == 1 then false
+    else underscoreLoop hex r 2
+
+def underscoreOK (cs : List Char) : Bool :=
+  match dropSign cs with
+  | '0' :: x :: r =>
+    if x == 'x' || x == 'X' || x == 'b' || x == 'B' || x == 'o' || x == 'O' then underscoreLoop true r 0
+    else underscoreLoop false ('0' :: x :: r) 3
+  | r => underscoreLoop false r 3
+
+def decNat? (cs : List Char) : Option Nat :=
+  if cs.isEmpty || !cs.all Char.isDigit then none else some (cs.foldl (fun n c => 10 * n + (c.toNat - 48)) 0)
+
+def hexNat? (cs : List Char) : Option Nat :=
+  cs.foldl (fun acc c => match acc, hexDigit? c with | some n, some d => some (16 * n + d) | _, _ => none) (some 0)
+
+/-- `[sign] 0x hex[.hex] p [sign] dec` (the exponent is mandatory); the value is exact: mantissa · 2^exp.
+    `none` also for what the model does not read exactly (more than 13 hex digits, |exp| > 1000) -/
+def parseHex (cs : List Char) : Option Rat :=
+  let neg := cs.head? == some '-'
+  match dropSign cs with
+  | '0' :: _ :: body =>
+    match body.span (fun c => c != 'p' && c != 'P') with
+    | (_, []) => none
+    | (mant, _ :: ex) =>
+      let ip := mant.takeWhile (· != '.')
+      let fp := (mant.dropWhile (· != '.')).drop 1
+      let eneg := ex.head? == some '-'
+      if (ip.isEmpty && fp.isEmpty) || fp.contains '.' || ip.length + fp.length > 13 then none else
+      match hexNat? (ip ++ fp), decNat? (dropSign ex) with
+      | some m, some e =>
+        if e > 1000 then none else
+        let e2 : Int := (if eneg then -(e : Int) else (e : Int)) - 4 * (fp.length : Int)
+        let q : Rat := if e2 ≥ 0 then (m : Rat) * ((2 ^ e2.toNat : Nat) : Rat) else (m : Rat) / ((2 ^ (-e2).toNat : Nat) : Rat)
+        some (if neg then -q else q)
+      | _, _ => none
+  | _ => none
+
+/-- the `-l` text as `strconv.ParseFloat` reads it: as `parseThr` (decimals, inf, nan) when it has neither an
+    underscore nor a `0x` prefix; otherwise the underscores must pass `underscoreOK` and are dropped, and a `0x`
+    text is a hexadecimal float -/
+def parseThrX (s : String) : Option Thr :=
+  let cs := s.toList
+  if !cs.contains '_' && !hasHexPrefix cs then parseThr s
+  else if cs.contains '_' && !underscoreOK cs then none
+  else
+    let cs' := cs.filter (· != '_')
+    if hasHexPrefix cs' then (parseHex cs').map .fin else parseThr (String.ofList cs')
+
+/-- accepted by ParseFloat but read inexactly or not at all by the model: long hexadecimal mantissas, huge exponents -/
+def unmodelledSpellingX (s : String) : Bool :=
+  let cs := s.toList.filter (· != '_')
+  (hasHexPrefix cs && (parseHex cs).isNone && (cs.any fun c => c == 'p' || c == 'P') &&
+    (cs.length > 17 || (cs.reverse.takeWhile Char.isDigit).length > 3))
+
+def cutCmdThrX (lflag : Option String) (input : Except String (List InTree)) : CliOut :=
+  let thr : Option Thr := match lflag with
+    | none => some (.fin (1 / 2))
+    | some s => parseThrX s
+  match thr with
+  | none =>
+    let v := lflag.getD ""
+    ⟨1, "", "invalid argument \"" ++ v ++ "\" for \"-l, --max-length\" flag: strconv.ParseFloat: parsing \"" ++ v ++ "\": invalid syntax"⟩
+  | some thr =>
+    match input with
+    | .error path => ⟨1, "", "open " ++ path ++ ": no such file or directory"⟩
+    | .ok trees => cutEachThr thr trees 0 ""
+
 end Gotree.C14.Cli
